@@ -243,12 +243,8 @@ func (c *nmoveCase) line() string {
 const nmoveZeit = 1000
 
 // runNmoveImpl calls the real nmove on the case.
-func runNmoveImpl(c *nmoveCase) (o nmoveOut, panicked string) {
-	defer func() {
-		if r := recover(); r != nil {
-			panicked = fmt.Sprint(r)
-		}
-	}()
+// newNmoveState builds the state one call of nmove reads.
+func newNmoveState(c *nmoveCase) (gp *hermes.GlobalVarsMain, lp *hermes.NitroSharedVars, subd int) {
 	g := hermes.NewGlobalVarsMain()
 	var l hermes.NitroSharedVars
 	g.N = c.N
@@ -283,11 +279,22 @@ func runNmoveImpl(c *nmoveCase) (o nmoveOut, panicked string) {
 	default:
 		g.SAAT[0], g.ERNTE2[0] = nmoveZeit+100, nmoveZeit+200
 	}
-	subd := 1
+	subd = 1
 	if !c.First {
 		subd = 2
 	}
-	hermes.VerifNmove(c.Wdt, subd, nmoveZeit, &g, &l)
+	return &g, &l, subd
+}
+
+func runNmoveImpl(c *nmoveCase) (o nmoveOut, panicked string) {
+	defer func() {
+		if r := recover(); r != nil {
+			panicked = fmt.Sprint(r)
+		}
+	}()
+	gp, lp, subd := newNmoveState(c)
+	hermes.VerifNmove(c.Wdt, subd, nmoveZeit, gp, lp)
+	g, l := *gp, *lp
 	o.C1 = append(o.C1, g.C1[:c.N]...)
 	o.Pe = append(o.Pe, g.PE[:c.N]...)
 	o.V = append(o.V, l.V[:c.N]...)
